@@ -63,6 +63,14 @@ pub fn make_ping() -> std::io::Result<(Ping, PingSource)> {
 #[inline]
 fn send_ping(fd: BorrowedFd<'_>, count: u64) -> std::io::Result<()> {
     assert!(count > 0);
+    #[cfg(calloop_verif)]
+    crate::verif::yield_point(if count == INCREMENT_CLOSE {
+        "efd.close"
+    } else {
+        "efd.ping"
+    });
+    #[cfg(calloop_verif)]
+    let _verif_written = crate::verif::YieldOnDrop("efd.written");
     match write(fd, &count.to_ne_bytes()) {
         // The write succeeded, the ping will wake up the loop.
         Ok(_) => Ok(()),
@@ -82,6 +90,8 @@ fn drain_ping(fd: BorrowedFd<'_>) -> std::io::Result<u64> {
     const NBYTES: usize = 8;
     let mut buf = [0u8; NBYTES];
 
+    #[cfg(calloop_verif)]
+    crate::verif::yield_point("efd.drain");
     match read(fd, &mut buf) {
         // Reading from an eventfd should only ever produce 8 bytes. No looping
         // is required.
